@@ -156,21 +156,30 @@ impl Decoder<'_> {
     /// null character (`\0`), or reaching the limit or end of the stream
     /// and erroring out.
     pub fn string(&mut self) -> Result<String> {
-        // If we have a limit, then don't search further than we need to.
-        let slice = match self.limit {
-            Some(limit) => &self.bytes[self.offset..(self.offset + limit * WORD_NUM_BYTES)],
-            None => &self.bytes[self.offset..],
+        let remaining = &self.bytes[self.offset..];
+        // If we have a limit, then don't search further than we need to
+        // (and never beyond the end of the stream).
+        let (slice, limited) = match self.limit {
+            Some(limit) if limit <= remaining.len() / WORD_NUM_BYTES => {
+                (&remaining[..limit * WORD_NUM_BYTES], true)
+            }
+            _ => (remaining, false),
         };
         // Find the null terminator.
-        let first_null_byte = slice.iter().position(|&c| c == 0).ok_or(match self.limit {
-            Some(_) => Error::LimitReached(self.offset + slice.len()),
-            None => Error::StreamExpected(self.offset),
+        let first_null_byte = slice.iter().position(|&c| c == 0).ok_or(if limited {
+            Error::LimitReached(self.offset + slice.len())
+        } else {
+            Error::StreamExpected(self.offset)
         })?;
         // Validate the string is utf8.
         let result = str::from_utf8(&slice[..first_null_byte])
             .map_err(|e| Error::DecodeStringFailed(self.offset, format!("{}", e)))?;
         // Round up consumed words to include null byte(s).
         let consumed_words = (first_null_byte / WORD_NUM_BYTES) + 1;
+        if consumed_words * WORD_NUM_BYTES > remaining.len() {
+            // The word holding the terminator is cut off by the end of the stream.
+            return Err(Error::StreamExpected(self.offset));
+        }
         self.offset += consumed_words * WORD_NUM_BYTES;
         if let Some(ref mut limit) = self.limit {
             // This is guaranteed to be enough due to the slice limit above.
